@@ -83,6 +83,13 @@ pub struct VT {
 	pub decode_depth: fn(u32, &[u8]) -> DecRes,
 	pub decode_all_depth: fn(u32, &[u8]) -> Result<Value, String>,
 	pub decode_from_bytes: fn(Vec<u8>) -> DecRes,
+	/// decode and drop without converting the value (for allocation measurements): Ok?
+	pub probe: fn(&[u8]) -> bool,
+	pub probe_dyn: fn(&mut dyn Input) -> bool,
+	pub probe_io: fn(&mut dyn io::Read) -> bool,
+	pub probe_bytes: fn(bytes::Bytes) -> bool,
+	/// decode through `IoReader` over any reader
+	pub decode_io: fn(&mut dyn io::Read) -> Result<Value, String>,
 	/// decode through `CountedInput` over a slice: (result, count(), bytes the slice delivered)
 	pub decode_counted: fn(&[u8]) -> (Result<Value, String>, u64, usize),
 	pub fixed_size: fn() -> Option<usize>,
@@ -231,6 +238,29 @@ fn dec_from_bytes<T: Subject + Decode>(data: Vec<u8>) -> DecRes {
 	}
 }
 
+fn probe<T: Decode>(data: &[u8]) -> bool {
+	let mut s = data;
+	T::decode(&mut s).is_ok()
+}
+fn probe_dyn<T: Decode>(input: &mut dyn Input) -> bool {
+	T::decode(&mut DynIn(input)).is_ok()
+}
+struct ReadRef<'a>(&'a mut dyn io::Read);
+impl io::Read for ReadRef<'_> {
+	fn read(&mut self, buf: &mut [u8]) -> io::Result<usize> {
+		self.0.read(buf)
+	}
+}
+fn probe_io<T: Decode>(r: &mut dyn io::Read) -> bool {
+	T::decode(&mut parity_scale_codec::IoReader(ReadRef(r))).is_ok()
+}
+fn probe_bytes<T: Decode>(b: bytes::Bytes) -> bool {
+	parity_scale_codec::decode_from_bytes::<T>(b).is_ok()
+}
+fn dec_io<T: Subject + Decode>(r: &mut dyn io::Read) -> Result<Value, String> {
+	T::decode(&mut parity_scale_codec::IoReader(ReadRef(r))).map(|t| t.to_value()).map_err(|e| e.to_string())
+}
+
 fn dec_counted<T: Subject + Decode>(data: &[u8]) -> (Result<Value, String>, u64, usize) {
 	let mut s = data;
 	let mut c = parity_scale_codec::CountedInput::new(&mut s);
@@ -299,6 +329,11 @@ impl VT {
 			decode_depth: dec_depth::<T>,
 			decode_all_depth: dec_all_depth::<T>,
 			decode_from_bytes: dec_from_bytes::<T>,
+			probe: probe::<T>,
+			probe_dyn: probe_dyn::<T>,
+			probe_io: probe_io::<T>,
+			probe_bytes: probe_bytes::<T>,
+			decode_io: dec_io::<T>,
 			decode_counted: dec_counted::<T>,
 			fixed_size: fixed::<T>,
 			mel: None,
